@@ -105,6 +105,14 @@ pub fn edit_calls_from(v: &RVal, o: &Opts, doc: Vec<u8>) -> Vec<Call> {
             keys.push(format!("{}x", k));
         }
     }
+    // names spelled like the document's own string values
+    if let RVal::Obj(m) = v {
+        for x in m.values() {
+            if let RVal::Str(s) = x {
+                keys.push(s.clone());
+            }
+        }
+    }
     if let RVal::Obj(m) = v {
         if !m.is_empty() && m.keys().all(|k| refmodel::gen::ORDER_KEYS.contains(&k.as_str())) {
             keys.extend(refmodel::gen::ORDER_KEYS.iter().map(|s| s.to_string()));
